@@ -8,6 +8,10 @@ namespace Krp
 def cast : List Addr := [1, 2, 3, 4, 5, 6, 7, 8, 9, 100, 101, 102, 103, 104, 105, 106, 107, 108, 109,
   201, 202, 203, 204, 205]
 
+/-- the crowd: 45 more holder addresses (the `crowd` generator profile), observed like the cast -/
+def crowd : List Addr := (List.range 45).map (· + 301)
+def castAll : List Addr := cast ++ crowd
+
 def optS (o : Option Nat) : String := match o with | some a => toString a | none => "-"
 def joinC (l : List String) : String := String.intercalate "," l
 
@@ -31,7 +35,7 @@ def histS (h : HubSt) : String :=
       toString x.sWithdraw, if x.released then "1" else "0"])))
 
 def tokenS (t : Token) (b : Block) : String :=
-  let bals := cast.filterMap (fun a => if t.bal a = 0 then none else some s!"{a}:{t.bal a}")
+  let bals := castAll.filterMap (fun a => if t.bal a = 0 then none else some s!"{a}:{t.bal a}")
   let allows := cast.flatMap (fun o => cast.filterMap (fun s =>
     if t.allowSet o s then some s!"{o}>{s}:{t.allowAmt o s}:{expS (t.allowExp o s)}" else none))
   let _ := b
@@ -42,7 +46,7 @@ def observe (s : Sys) : String :=
   let hubQ := match h.actualState s.hubEnv with
     | .ok a => hubStateS a
     | .error _ => "ERR"
-  let users := cast.filterMap (fun u =>
+  let users := castAll.filterMap (fun u =>
     let reqs := (h.userBatches u).map (fun i => s!"({i},{h.waitB u i},{h.waitS u i})")
     let wd := match h.withdrawable u s.chain.time with
       | .ok n => toString n
@@ -50,7 +54,7 @@ def observe (s : Sys) : String :=
     if reqs = [] ∧ (wd = "0" ∨ wd = "ERR") then none
     else some s!"u{u}=req[{String.intercalate "" reqs}];wd={wd}")
   let r := s.reward
-  let holders := cast.filterMap (fun a =>
+  let holders := castAll.filterMap (fun a =>
     if r.hBal a = 0 ∧ r.hIdx a = 0 ∧ r.hPend a = 0 then none
     else
       let acc := match r.accrued a with | .ok n => toString n | .error _ => "ERR"
@@ -58,7 +62,7 @@ def observe (s : Sys) : String :=
   let d := s.disp
   let c := s.chain
   let regQ := (Sys.sortAscAmt s.regValidatorsRaw).map (fun x => s!"{x.1}:{x.2}")
-  let bank := cast.flatMap (fun a => ([0, 1, 2] : List Denom).filterMap (fun dn =>
+  let bank := castAll.flatMap (fun a => ([0, 1, 2] : List Denom).filterMap (fun dn =>
     if a = swapA ∨ c.bank a dn = 0 then none else some s!"{a}.{dn}:{c.bank a dn}"))
   let deleg := valUniverse.filterMap (fun v => if !c.delegSet v then none else some s!"{v}:{c.deleg v}")
   let unb := c.unbondingQ.map (fun e => s!"({e.1},{e.2.1},{e.2.2})")
@@ -239,6 +243,12 @@ def step (s : Sys) (line : String) : Sys × String :=
   | ["env", "legacy", u, b, a] => match pNats [u, b, a] with
     | some [u, b, a] => let s' := s.env (.seedLegacy u b a); (s', "ok | " ++ observe s')
     | _ => bad
+  | ["env", "migrate", c] => match pNat c with
+    -- an upgrade to the same code: every `migrate` entry point of the repository is the identity;
+    -- the stSei token (cw20-base wrapper) defines none
+    | some c => if c = hubA ∨ c = bseiA ∨ c = rewardA ∨ c = dispA ∨ c = regA then (s, "ok | " ++ observe s)
+                else (s, "err:no migrate entry point | " ++ observe s)
+    | none => bad
   | ["env", "unbondingtime", n] => match pNat n with
     | some n => let s' := { s with chain := { s.chain with unbondingTime := n } }; (s', "ok | " ++ observe s')
     | none => bad
